@@ -78,6 +78,20 @@ def read(pos, n):
     return ("read", pos, n)
 
 
+def TO(anchor, e):
+    """an extent that runs up to byte ``anchor + e``"""
+    return ("to", anchor, e)
+
+
+def blob(key, pos, extents, conds=()):
+    """the bytes from pos are reported whole under ``key``; extents: the acceptable ways to say how far (a byte count
+    and / or TO(...) -- equal for a response laid out as the standard prescribes)"""
+    if not isinstance(extents, (list, tuple)) or (extents and extents[0] == "to"):
+        extents = [extents]
+    ex = tuple(("const", x) if isinstance(x, int) else x for x in extents)
+    return ("blob", key, pos, ex, tuple(conds))
+
+
 DECODERS = {}
 
 
@@ -108,7 +122,12 @@ D(RE, [site(M + RE + "._datain_bits", ABS(0)),
        site(M + RE + "._element_status_descriptor_bits", LOOP(1, 0)),
        site(M + RE + "._data_transfer_descriptor_bits", LOOP(1, 0), [BYTE(LOOP(0, 0), 4)]),
        site(M + RE + "._storage_descriptor_bits", LOOP(1, 0), [BYTE(LOOP(0, 0), 2)]),
-       site(M + RE + "._import_export_descriptor_bits", LOOP(1, 0), [BYTE(LOOP(0, 0), 3)])])
+       site(M + RE + "._import_export_descriptor_bits", LOOP(1, 0), [BYTE(LOOP(0, 0), 3)]),
+       # SMC-3 6.12: PVOLTAG / AVOLTAG (byte 1 bits 7 / 6 of the page header) say which 36-byte volume tag fields follow
+       # the first 12 bytes of each descriptor, primary first
+       blob("primary_volume_tag", LOOP(1, 12), 36, [BYTE(LOOP(0, 1), 1, 7, 7)]),
+       blob("alternate_volume_tag", LOOP(1, 12), 36, [BYTE(LOOP(0, 1), 0, 7, 7), BYTE(LOOP(0, 1), 1, 6, 6)]),
+       blob("alternate_volume_tag", LOOP(1, 48), 36, [BYTE(LOOP(0, 1), 1, 7, 7), BYTE(LOOP(0, 1), 1, 6, 6)])])
 PI = "scsi_cdb_persistentreservein:"
 D(PI + "PersistentReserveInReadKeys", [read(ABS(0), 4), read(ABS(4), 4), window(0, ABS(8), ABS(0), E(8, F(ABS(4), 4))), stride(0, 8),
                                        read(LOOP(0, 0), 8)])
@@ -119,12 +138,22 @@ D(PI + "PersistentReserveInReportCapabilities", [site(M + PI + "PersistentReserv
 FS = PI + "PersistentReserveInReadFullStatus"
 D(FS, [read(ABS(0), 4), read(ABS(4), 4), window(0, ABS(8), ABS(0), E(8, F(ABS(4), 4))),
        site(M + FS + "._full_status_desc_bits", LOOP(0, 0)), site(M + FS + "._transport_id_bits", LOOP(0, 24)),
-       stride_c(0, 24, E(0, F(LOOP(0, 20), 4)))], allowed_strides=[("const", 24)])
+       stride_c(0, 24, E(0, F(LOOP(0, 20), 4))),
+       blob("n_port_name", LOOP(0, 32), 8, [BYTE(LOOP(0, 24), 0, 3, 0)]),                   # FCP: N_PORT_NAME bytes 8..15
+       blob("eui64_name", LOOP(0, 32), 8, [BYTE(LOOP(0, 24), 3, 3, 0)]),                    # SBP: EUI-64 NAME bytes 8..15
+       blob("initiator_port_identifier", LOOP(0, 32), 16, [BYTE(LOOP(0, 24), 4, 3, 0)]),    # SRP: bytes 8..23
+       blob("sas_address", LOOP(0, 28), 8, [BYTE(LOOP(0, 24), 6, 3, 0)]),                   # SAS: SAS ADDRESS bytes 4..11
+       blob("routing_id", LOOP(0, 26), 2, [BYTE(LOOP(0, 24), 0x0A, 3, 0)])],                # SOP: ROUTING ID bytes 2..3
+  allowed_strides=[("const", 24)])
 D("scsi_cdb_readcapacity10:ReadCapacity10", [site(M + "scsi_cdb_readcapacity10:ReadCapacity10._datain_bits", ABS(0))])
 D("scsi_cdb_readcapacity16:ReadCapacity16", [site(M + "scsi_cdb_readcapacity16:ReadCapacity16._datain_bits", ABS(0))])
 RD = "scsi_cdb_readdiscinformation:ReadDiscInformation"
 D(RD, [site(M + RD + "._sdi_bits", ABS(0), [BYTE(ABS(2), 0, 7, 5)]), site(M + RD + "._tri_bits", ABS(0), [BYTE(ABS(2), 1, 7, 5)]),
-       site(M + RD + "._pow_bits", ABS(0), [BYTE(ABS(2), 2, 7, 5)])])
+       site(M + RD + "._pow_bits", ABS(0), [BYTE(ABS(2), 2, 7, 5)]),
+       # MMC-6 6.21.4 standard disc information
+       blob("last_session_lead_in_start_address", ABS(16), 4, [BYTE(ABS(2), 0, 7, 5)]),
+       blob("last_possible_lead_out_start_address", ABS(20), 4, [BYTE(ABS(2), 0, 7, 5)]),
+       blob("disc_bar_code", ABS(24), 8, [BYTE(ABS(2), 0, 7, 5)])])
 # MODE SENSE: header, then the page after the block descriptors
 MS = M + "scsi_enum_modesense:"
 for _cls, _hdr, _bdl, _htab in (("scsi_cdb_modesense6:ModeSense6", 4, F(ABS(3), 1), "mode_parameter_header6_bits"),
@@ -140,6 +169,7 @@ for _cls, _hdr, _bdl, _htab in (("scsi_cdb_modesense6:ModeSense6", 4, F(ABS(3), 
 # INQUIRY
 IQ = "scsi_cdb_inquiry:Inquiry"
 _vpd = lambda code: [PARAM("evpd", "ne", 0), BYTE(ABS(1), code, 7, 0)]
+_DEND = TO(LOOP(1, 0), E(4, F(LOOP(1, 3), 1)))
 D(IQ, [site(M + IQ + "._datain_bits", ABS(0)),
        site(M + IQ + "._standard_bits", ABS(0), [PARAM("evpd", "eq", 0)]),
        site(M + IQ + "._pagecode_bits", ABS(0), [PARAM("evpd", "ne", 0)]),
@@ -160,7 +190,25 @@ D(IQ, [site(M + IQ + "._datain_bits", ABS(0)),
        site(M + IQ + "._relative_port_bits", LOOP(1, 4), [BYTE(LOOP(1, 1), 4, 3, 0)]),
        site(M + IQ + "._target_portal_group_bits", LOOP(1, 4), [BYTE(LOOP(1, 1), 5, 3, 0)]),
        site(M + IQ + "._logical_unit_group_bits", LOOP(1, 4), [BYTE(LOOP(1, 1), 6, 3, 0)]),
-       site(M + IQ + "._pci_express_routing_id_bits", LOOP(1, 4), [BYTE(LOOP(1, 1), 9, 3, 0)])],
+       site(M + IQ + "._pci_express_routing_id_bits", LOOP(1, 4), [BYTE(LOOP(1, 1), 9, 3, 0)]),
+       # SPC-4 6.4.2 standard INQUIRY data
+       blob("t10_vendor_identification", ABS(8), 8, [PARAM("evpd", "eq", 0)]),
+       blob("product_identification", ABS(16), 16, [PARAM("evpd", "eq", 0)]),
+       blob("product_revision_level", ABS(32), 4, [PARAM("evpd", "eq", 0)]),
+       # SPC-4 7.8.15 Unit Serial Number page: bytes 4 .. page length + 3
+       blob("unit_serial_number", ABS(4), TO(ABS(0), E(4, F(ABS(2), 2))), _vpd(0x80)),
+       # SPC-4 7.8.6 designators: the designator proper runs from byte 4 of the descriptor to DESIGNATOR LENGTH + 3
+       blob("vendor_specific", LOOP(1, 4), _DEND, _vpd(0x83) + [BYTE(LOOP(1, 1), 0, 3, 0)]),
+       blob("t10_vendor_id", LOOP(1, 4), 8, _vpd(0x83) + [BYTE(LOOP(1, 1), 1, 3, 0)]),
+       blob("vendor_specific_id", LOOP(1, 12), _DEND, _vpd(0x83) + [BYTE(LOOP(1, 1), 1, 3, 0)]),
+       # EUI-64: 8 bytes = company id (3) + extension (5); 12 bytes = ... + directory id (4); 16 bytes = identifier
+       # extension (8) + company id (3) + extension (5)
+       blob("vendor_specific_extension_id", LOOP(1, 7), 5, _vpd(0x83) + [BYTE(LOOP(1, 1), 2, 3, 0)]),
+       blob("directory_id", LOOP(1, 12), [4, _DEND], _vpd(0x83) + [BYTE(LOOP(1, 1), 2, 3, 0)]),
+       blob("identifier_extension", LOOP(1, 4), 8, _vpd(0x83) + [BYTE(LOOP(1, 1), 2, 3, 0)]),
+       blob("vendor_specific_extension_id", LOOP(1, 15), [5, _DEND], _vpd(0x83) + [BYTE(LOOP(1, 1), 2, 3, 0)]),
+       blob("md5_logical_identifier", LOOP(1, 4), [16, _DEND], _vpd(0x83) + [BYTE(LOOP(1, 1), 7, 3, 0)]),
+       blob("scsi_name_string", LOOP(1, 4), _DEND, _vpd(0x83) + [BYTE(LOOP(1, 1), 8, 3, 0)])],
   kwargs=("evpd", 1))
 
 # decoders deliberately not constrained (see DESIGN.md C04): READ CD per-sector layout
